@@ -150,7 +150,7 @@ func thr(r *hotspot.Rule, v interface{}) int64 {
 }
 
 func TestPerValueShaping(t *testing.T) {
-	hx.Check(t, hx.N{Quick: 3000, Thorough: 20000}, func(t *rapid.T, c *hx.Case) {
+	hx.Check(t, hx.N{Quick: 15000, Thorough: 160000}, func(t *rapid.T, c *hx.Case) {
 		selector := rapid.IntRange(0, 4).Draw(t, "selector")
 		rules := []*hotspot.Rule{drawRule(t, c, "r0", selector)}
 		if rapid.IntRange(0, 3).Draw(t, "second") == 0 {
